@@ -1112,6 +1112,11 @@ func (c *hctx) callTranslated(cal *hfunc, fun ast.Expr, args []ast.Expr, ellipsi
 		}
 		a := args[ai]
 		ai++
+		if se, isSl := ast.Unparen(a).(*ast.SliceExpr); isSl && p.v.typ.k == "slice" {
+			// a window handed to a parameter the callee only reads: by value (fn_heap_slicearg.go)
+			s += " " + c.sliceArg(se, cal, p, pre)
+			continue
+		}
 		y, yt := c.expr(a, pre)
 		if yt.k == "struct" && yt.owned {
 			c.lostAt(a, "pointer %s to a value struct as an argument (aliasing)", src(a))
